@@ -1,9 +1,9 @@
 package vsim
 
 import (
-	"strings"
 	"context"
 	"fmt"
+	"strings"
 	"time"
 
 	tchannel "github.com/uber/tchannel-go"
